@@ -53,68 +53,88 @@ rule (pickle disk, any protocol: `dumpsK` only has to be injective). -/
 theorem put_eq_iff (E : Externals) (hinj : ∀ a b, E.dumpsK a = E.dumpsK b → a = b)
     (a b : PyVal) (ha : ValidKey a) (hb : ValidKey b) :
     dbKeyEq (Disk.put E a) (Disk.put E b) ↔ docEq a b := by
-  sorry
+  cases a <;> cases b <;>
+    simp only [Disk.put, dbKeyEq, docEq, nativeKey, keyNum] <;>
+    (try split) <;> (try split) <;>
+    simp_all [SqlVal.eqv, SqlVal.num] <;>
+    (first
+      | exact ⟨fun h => by simpa using hinj _ _ h, fun h => by rw [h]⟩
+      | (intro h; have := hinj _ _ h; simp_all)
+      | skip)
 
 /-- the numeric comparison is exact on integers -/
 theorem intNum_inj (i j : Int) : intNum i = intNum j ↔ i = j := by
-  sorry
+  exact intNum_inj' i j
 
 /-- an int64 and a double are one key only if the double is finite, and the scaled
 integer values coincide exactly (no rounding at 2^53 or 2^63) -/
 theorem intNum_eq_floatNum (i : Int) (f : Nat) :
     intNum i = floatNum f ↔
       (floatExp f ≠ 2047 ∧ i * 2^1074 = (if floatSign f then -(floatMag f : Int) else floatMag f)) := by
-  sorry
+  exact intNum_eq_floatNum' i f
 
 /-- two doubles are one key only when they are the same number: identical bit patterns,
 or the two zeros -/
 theorem floatNum_eq_iff (f g : Nat) (hf : f < 2^64) (hg : g < 2^64)
     (hnf : floatIsNaN f = false) (hng : floatIsNaN g = false) :
     floatNum f = floatNum g ↔ (f = g ∨ (floatMag f = 0 ∧ floatMag g = 0 ∧ floatExp f ≠ 2047 ∧ floatExp g ≠ 2047)) := by
-  sorry
+  exact floatNum_eq_iff' f g hf hg hnf hng
 
 /-- `Disk.get` inverts `Disk.put`: iteration returns the stored key, with its type -/
 theorem get_put (E : Externals) (hE : Lawful E) (k : PyVal) :
     Disk.get E (Disk.put E k).1 (Disk.put E k).2 = k := by
-  sorry
+  cases k <;> simp [Disk.put, Disk.get, column, hE.loads_dumpsK]
+  split <;> simp [hE.loads_dumpsK]
 
 /-- `put` never produces NULL -/
 theorem put_ne_null (E : Externals) (d : DiskKind) (k : PyVal) : (put E d k).1 ≠ .null := by
-  sorry
+  cases d <;> cases k <;> simp [put, JSONDisk.put, Disk.put] <;> split <;> simp
 
 /-- JSONDisk: keys are identified by their JSON text -/
 theorem json_put_eq_iff (E : Externals) (hinj : ∀ a b, E.jsonz a = E.jsonz b → a = b) (a b : PyVal) :
     dbKeyEq (JSONDisk.put E a) (JSONDisk.put E b) ↔ a = b := by
-  sorry
+  simp only [JSONDisk.put, Disk.put, dbKeyEq, SqlVal.eqv]
+  constructor
+  · intro h
+    exact hinj _ _ (by simpa using h.1)
+  · intro h
+    simp [h]
 
 /-- ... so under JSONDisk the documented equality of 1 and 1.0 does NOT hold (known
 finding D13): the full-strength statement fails, with this witness -/
 theorem json_docEq_fails (E : Externals) (hinj : ∀ a b, E.jsonz a = E.jsonz b → a = b) :
     ¬ (∀ a b, ValidKey a → ValidKey b → (dbKeyEq (JSONDisk.put E a) (JSONDisk.put E b) ↔ docEq a b)) := by
-  sorry
+  intro h
+  have hv : ValidKey (.float 0x3ff0000000000000) := by unfold ValidKey; decide
+  have hd : docEq (.int 1) (.float 0x3ff0000000000000) := by
+    have : intNum 1 = floatNum 0x3ff0000000000000 := by decide +kernel
+    simp [docEq, nativeKey, keyNum, inI64, this]
+  have h1 := (h (.int 1) (.float 0x3ff0000000000000) trivial hv).2 hd
+  have h2 := (json_put_eq_iff E hinj _ _).1 h1
+  exact absurd h2 (by decide)
 
 /-! ### the key order used by `iterkeys` and by the queues -/
 
 theorem keyRawLt_irrefl (a : SqlVal × Bool) : keyRawLt a a = false := by
-  sorry
+  exact keyRawLt_irrefl' a
 
 theorem keyRawLt_trans (a b c : SqlVal × Bool) (hab : keyRawLt a b = true) (hbc : keyRawLt b c = true) :
     keyRawLt a c = true := by
-  sorry
+  exact keyRawLt_trans' a b c hab hbc
 
 theorem keyRawLt_total (a b : SqlVal × Bool) (ha : a.1 ≠ .null) (hb : b.1 ≠ .null) :
     keyRawLt a b = true ∨ keyRawLt b a = true ∨ dbKeyEq a b := by
-  sorry
+  exact keyRawLt_total' a b ha hb
 
 namespace Cache
 
 /-- `isort` is a sorting function: a permutation of its input, ordered -/
 theorem isort_perm {α} (lt : α → α → Bool) (l : List α) : (isort lt l).Perm l := by
-  sorry
+  exact isort_perm' lt l
 
 theorem isort_sorted_keys (rows : List Row) (hn : ∀ r ∈ rows, r.key ≠ .null) :
     (isort keyRawLtRow rows).Pairwise (fun a b => keyRawLtRow b a = false) := by
-  sorry
+  exact isort_sorted_keys' rows hn
 
 /-- `iterkeys()` yields every key exactly once in database sort order, for every table size
 and page size ≥ 1 -/
@@ -122,14 +142,16 @@ theorem iterkeys_all (s : Cache) (E : Externals) (hu : KeysUnique s.rows)
     (hn : ∀ r ∈ s.rows, r.key ≠ .null) (hp : 0 < s.cfg.page) :
     (s.iterkeys E false).2 =
       .list ((isort keyRawLtRow s.rows).map (fun r => keyOut E s.cfg.disk r.key r.raw)) := by
-  sorry
+  have h := iterkeys_all' s E false hu hn hp
+  exact h
 
 /-- `iterkeys(reverse=True)` yields every key exactly once in reverse sort order -/
 theorem riterkeys_all (s : Cache) (E : Externals) (hu : KeysUnique s.rows)
     (hn : ∀ r ∈ s.rows, r.key ≠ .null) (hp : 0 < s.cfg.page) :
     (s.iterkeys E true).2 =
       .list ((isort (fun a b => keyRawLtRow b a) s.rows).map (fun r => keyOut E s.cfg.disk r.key r.raw)) := by
-  sorry
+  have h := iterkeys_all' s E true hu hn hp
+  exact h
 
 end Cache
 
@@ -149,3 +171,5 @@ example : ¬ dbKeyEq (Disk.put toyE (.bytes (toyE.dumpsK .none))) (Disk.put toyE
 example : dbKeyEq (Disk.put toyE (.float 0)) (Disk.put toyE (.float 0x8000000000000000)) := by decide +kernel
 
 end DC
+
+/-! ### axiom audit -/
